@@ -125,6 +125,7 @@ def run_shard(spec, R):
                 if ok:
                     ok, out = R.guarded("resize", lambda: rz(arg))
             if ok:
+                R.check(np.array_equal(arg if as_array else img.img, arr), "input_untouched", case)
                 oarr = out if as_array else out.img
                 rt = 1e-5 if dtype == np.float64 else 1e-4
                 good = oarr.shape == tuple(tshape) + arr.shape[2:]
@@ -170,11 +171,14 @@ def run_shard(spec, R):
                 i_f, _ = integral(fine.img, dims, dim)
                 R.check(fine.img.shape[:dim] == tuple(s * 2**levels for s in base) and bool(np.all(np.abs(i_f - i_in) <= rt * np.maximum(mag, 1e-300)))
                         and list(fine.dimensions) == list(dims), "refine_conserves", case)
+                R.check(np.array_equal(img.img, arr), "input_untouched", case)
+                fine_before = fine.img.copy()
                 ok, back = R.guarded("uniform_refinement", lambda: darsia.uniform_refinement(fine, -levels), key=lambda e, w: "C11:coarsening_multi_level_stale_extent" if levels > 1 else None)
                 if ok:
                     R.check(back.img.shape == arr.shape and np.array_equal(back.img, arr) and list(back.dimensions) == list(dims), "refine_coarsen_identity",
                             lambda: {**case, "maxdiff": float(np.max(np.abs(back.img.astype(float) - arr))) if back.img.shape == arr.shape else str(back.img.shape)},
                             key="C11:coarsening_multi_level_stale_extent" if levels > 1 else None, group=f"{dim}d/{levels}")
+                    R.check(np.array_equal(fine.img, fine_before), "input_untouched", {**case, "step": "coarsening the refined image"})
                 R.sig(["refine", dim, list(base), levels, payload], True, cls=f"refine/{dim}d/{payload}")
             # (b) coarsening of divisible extents preserves the integral
             shape = tuple(int(rng.integers(1, 4)) * 2**levels for _ in range(dim))
@@ -190,6 +194,13 @@ def run_shard(spec, R):
                     good = bool(np.all(np.abs(i_c - i_in) <= rt * np.maximum(mag, 1e-300)))
                 R.check(good and list(coarse.dimensions) == list(dims), "coarsen_conserves", lambda: {**case, "out_shape": list(coarse.img.shape)},
                         key="C11:coarsening_multi_level_stale_extent" if levels > 1 else None, group=f"{dim}d/{levels}")
+                R.check(np.array_equal(img.img, arr), "input_untouched", case)
+                # the same image coarsened once more gives the same result, and the first result is still intact
+                first = coarse.img.copy()
+                ok, again = R.guarded("uniform_refinement", lambda: darsia.uniform_refinement(img, -levels), key=lambda e, w: "C11:coarsening_multi_level_stale_extent" if levels > 1 else None)
+                if ok:
+                    R.check(np.array_equal(again.img, first) and np.array_equal(coarse.img, first), "coarsen_conserves", {**case, "what": "second coarsening of the same image"},
+                            key="C11:coarsening_multi_level_stale_extent" if levels > 1 else None, group=f"{dim}d/{levels}")
                 R.sig(["coarsen", dim, list(shape), levels, payload], True, cls=f"coarsen/{dim}d/{payload}")
             # (c) any extent: a constant image stays that constant
             shape = tuple(int(rng.integers(1, 12)) for _ in range(dim))
@@ -243,6 +254,14 @@ def run_shard(spec, R):
                             good &= bool(np.all(np.abs(i_out - i_in * factor) <= 10 * rt * np.maximum(mag * factor, 1e-300)))
                         R.check(good, "axis_reduction", lambda: {**case, "out_shape": list(red.img.shape), "out_dims": list(red.dimensions)}, group=f"{dim}d/{ax}/{mode}")
                         R.check(np.array_equal(img.img, arr), "input_untouched", case)
+                        # the retained axes keep their place: addressing the axis by matrix index, by Cartesian name or
+                        # through an AxisReduction object yields the same placement
+                        place = (np.asarray(red.origin, float).tolist(), list(red.dimensions))
+                        if by == "index":
+                            place_ref = place
+                        else:
+                            R.check(place == place_ref, "axis_reduction", lambda: {**case, "what": "placement differs from reduction by index", "placement": place, "by_index": place_ref},
+                                    group=f"{dim}d/{ax}/place")
             R.sig(["reduce", dim, list(shape), payload, np.dtype(dtype).name], True, cls=f"reduce/{dim}d/{payload}")
 
         # ============================================================ extrusion
@@ -260,6 +279,7 @@ def run_shard(spec, R):
                     i_in, mag = integral(arr, dims, 2)
                     i_out, _ = integral(ex.img, list(ex.dimensions), 3)
                     good = bool(np.all(np.abs(i_out - height * i_in) <= 1e-12 * height * np.maximum(mag, 1e-300))) and all(np.array_equal(ex.img[k], arr) for k in range(num))
+                R.check(np.array_equal(img.img, arr), "input_untouched", case)
                 R.check(good, "extrusion", lambda: {**case, "out_shape": list(ex.img.shape), "out_dims": list(ex.dimensions)})
                 R.sig(["extrude", list(shape), num, payload], True, cls="extrude")
 
